@@ -70,6 +70,11 @@ CLAIMED = {
    note="Assumed: newActiveClient (dialing) returns a client iff it reports no failure; client.Close delivers the close event to the pool before OnDestroyStream makes its pooling decision. Not covered: the ping-pong xprotocol pool, binding/multiplex connection state machines, HTTP/2 pool, concurrent histories, real sockets.",
    technique="contract-based deductive verification (WP over go/ssa, SMT) of representation-invariant style postconditions",
    design="5/C09"),
+ "C02": dict(
+   text="Proof level on the sequential correlation kernel of the xprotocol client side: handleResponse delivers a response to exactly the receiver registered under the frame's request id, once, with this frame's own header and data, and unregisters that id (so a duplicate or late response is dropped); an unknown id delivers nothing and leaves the table unchanged; no other registration is touched. NewStream registers the new stream under the id it generated and under no other key; ResetStream of a client stream removes its registration, so the answer to an abandoned exchange can no longer be delivered to anyone.",
+   note="Assumed: frame id/header/data getters are attributes of the frame object; receiver.OnReceive recorded by ghost state; BaseStream.ResetStream (listener notification) does not touch the stream table. Not covered: all interleavings (the table is guarded by a mutex which is a no-op here), pooled per-request buffers, write-lock contiguity, HTTP/1 and HTTP/2, id generators' wrap-around.",
+   technique="contract-based deductive verification (WP over go/ssa, SMT) with map model and ghost delivery record",
+   design="5/C02"),
 }
 NA = {
  "C11": "quantifies over the arrival time of a signal relative to in-flight requests across two processes (fd passing, drain timers): crash points and schedules of the whole runtime; no function whose pre/postcondition states it (DESIGN.md section 6)",
